@@ -69,7 +69,7 @@ if w.get("op") == "join":
         vA = A.get_atom_coord(apA) - A.get_atom_coord(nbA)
         dist = float(rng.uniform(1.0, 2.0))
         try:
-            r = ml.Molecule.join(A, B, apA, apB, dist=dist, optimize_rotation=False)
+            r = ml.Molecule.join(A, B, apA, apB, dist=dist, optimize_rotation=(trial % 2 == 1))
         except BaseException as ex:
             bad.append(f"join raised {type(ex).__name__}: {ex}")
             break
@@ -109,6 +109,38 @@ if w.get("op") == "join":
             if not np.allclose(d0, d1, atol=1e-6):
                 bad.append("a fragment was deformed by join")
                 break
+elif w.get("op") == "assemble":
+    import types
+    try:
+        import molli.external.openbabel  # noqa
+    except BaseException:
+        sys.modules["molli.external.openbabel"] = types.ModuleType("molli.external.openbabel")
+    from molli.scripts import combine as CB
+    fn = CB._ml_assemble
+    fn = getattr(fn, "__wrapped__", None) or fn("x")[0] if not hasattr(fn, "__wrapped__") else fn.__wrapped__
+
+    def mk(name, els, bonds, aps):
+        m = ml.Molecule(name=name)
+        for j, e in enumerate(els):
+            a = ml.Atom(e if e != "X" else ml.Element.Unknown, label=f"{name}{j}")
+            if j in aps:
+                a.atype = ml.AtomType.AttachmentPoint
+            m.add_atom(a, [1.37 * j + 0.1 * len(els), 0.53 * j * j, 0.29 * j], 0.0)
+        for i, j in bonds:
+            m.connect(i, j)
+        return m
+    core = mk("core", ("X", "C", "Si", "X", "X", "P"), ((0, 1), (1, 2), (2, 3), (2, 5), (5, 4)), (0, 3, 4))
+    subs = tuple(mk(f"s{k}", ("X", el), ((0, 1),), (0,)) for k, el in enumerate(("N", "O", "F")))
+    aps = tuple(core.get_atom_index(a) for a in core.attachment_points)
+    try:
+        res = fn(core, aps, [subs], hadd=False)
+        prod = list(res.values())[0]
+        got = sorted(tuple(sorted((b.a1.element.symbol, b.a2.element.symbol))) for b in prod.bonds)
+        want = sorted(tuple(sorted(p_)) for p_ in (("C", "Si"), ("Si", "P"), ("C", "N"), ("Si", "O"), ("P", "F")))
+        if got != want:
+            bad.append(f"molli combine put the substituents on the wrong attachment points: bonds {got}, expected {want}")
+    except BaseException as ex:
+        bad.append(f"_ml_assemble raised {type(ex).__name__}: {ex}")
 elif w.get("op") == "purity":
     A, B = frag(True, 0, 1, np.zeros(3)), frag(False, 0, 1, np.zeros(3))
     # make B's attachment vector exactly parallel to A's: the rotation then takes the antiparallel branch
